@@ -68,6 +68,8 @@ def gen_obligations(suite, c, bits=None):
                 v.x = "nonnull"
         elif f.kind == "lambda":
             v = SV("lambda", p)
+        elif f.kind == "opaque":
+            v = ex.opaque()
         else:
             t = z3.Const("in_%s" % p, {"int": z3.IntSort(), "bool": z3.BoolSort(), "real": z3.RealSort(),
                                           "bits": ex.bits.sort, "str": z3.IntSort()}[f.kind])
@@ -102,7 +104,7 @@ def gen_obligations(suite, c, bits=None):
     # ---- postconditions on every normal exit
     rt = c.types.get("return")
     for s, val, ln in outs:
-        if rt:
+        if rt and parse_type(rt).kind != "opaque":
             f = parse_type(rt)
             try:
                 val = ex.coerce(val, f, "return value") if (val.kind == "none" or val.kind != f.kind) else val
@@ -123,6 +125,10 @@ def gen_obligations(suite, c, bits=None):
         if x.exc in c.raises:
             rc = ex.spec_eval(c.raises[x.exc], old, None, None)
             _add(ex, "%s.raises[%s].only-when@L%s" % (c.name, x.exc, x.lineno), x.state.pc, rc, x.lineno, "raises")
+            if c.exc_ensures:
+                g = ex.spec_eval(c.exc_ensures, x.state, old, None)
+                _add(ex, "%s.exc_ensures@L%s" % (c.name, x.lineno), x.state.pc, g, x.lineno, "post")
+        elif x.exc in c.allowed_raises or "*" in c.allowed_raises:
             if c.exc_ensures:
                 g = ex.spec_eval(c.exc_ensures, x.state, old, None)
                 _add(ex, "%s.exc_ensures@L%s" % (c.name, x.lineno), x.state.pc, g, x.lineno, "post")
@@ -194,7 +200,7 @@ def model_inputs(ex, inputs, model):
     """read the function's inputs out of a model as Python values (scalars only)"""
     out = {}
     for p, (f, v) in inputs.items():
-        if f.kind == "ref" or v.kind == "lambda":
+        if f.kind == "ref" or v.kind in ("lambda", "opaque"):
             out[p] = None
             continue
         if v.none is not None and z3.is_true(model.eval(v.none, model_completion=True)):
